@@ -383,7 +383,7 @@ CLAIMED["C24"] = dict(
          "not frozen, nothing outside the outer window, a frozen band outside the outer window refused. Bounded stand-in: installed "
          "Kpoint_and_neighbours with real eigh / SVD on random unitary overlaps: U^dagger U = 1, frozen bands kept by the projector, exact zeros "
          "outside the outer window after __init__ and both kinds of update.",
-    note=TB + "; eigh / SVD / inv external; select_window_degen is C15's contract; site-symmetry symmetrizers are identities here (C20 / C21 territory)")
+    note=TB + "; eigh / SVD / inv external; select_window_degen: C15's units are registered under C24 as well; site-symmetry symmetrizers are identities here (C20 / C21 territory)")
 
 CLAIMED["C21"] = dict(
     text="The REAL text of Orbitals.rot_orb_basis / rot_orb (sympy expansion of the orbital polynomials in rotated coordinates) is executed with "
